@@ -850,8 +850,11 @@ CallBuiltin(nm, args0, site, cx) ==
                            ELSE Ok(SeqValue([i \in 1..Len(ks) |-> Str(ks[i])], FALSE), IF MaxMembers(a[1]) >= 2 THEN Taint(st) ELSE st)
     [] nm = "lookup" -> IF n # 2 THEN BadArgs(st) ELSE IF ~IsStr(A(2)) THEN BadArgs(st)
                         \* K4: "$lookup(o, k) equals the field selection of k on o": on an array of objects the members found are
-                        \* one flat sequence (array-valued members are spliced, as a path step does); on an object it is the member
-                        ELSE LET r == NameOn(a[1], a[2].s, IF IsArr(a[1]) THEN [st.md EXCEPT !.name_unit = FALSE] ELSE st.md) IN
+                        \* one flat sequence (array-valued members are spliced, as a path step does) - literally the path k evaluated on o; on an object it is the member
+                        ELSE IF IsArr(a[1]) THEN
+                             (LET P == Eval([k |-> "Path", steps |-> <<[k |-> "Name", s |-> a[2].s, esc |-> FALSE]>>, keep |-> FALSE], a[1], 1, st) IN
+                              IF P.x = "ok" /\ IsUndef(P.r) THEN Top("$lookup of a missing member is open", st) ELSE P)
+                        ELSE LET r == NameOn(a[1], a[2].s, st.md) IN
                              IF IsUndef(r) THEN Top("$lookup of a missing member is open", st) ELSE Ok(r, st)
     [] nm = "spread" -> IF n # 1 THEN BadArgs(st)
                         ELSE IF ~(IsObj(a[1]) \/ IsArr(a[1])) THEN Ok(a[1], st)
